@@ -1,5 +1,6 @@
 """Second half of the translator: constructor IR, facade action lists, misc declarative code."""
 import ast
+import os
 import re
 
 
@@ -1141,10 +1142,13 @@ def gen_footprint(mods):
                 classnames.add(n.name)
     MUT = {"update", "append", "extend", "pop", "clear", "setdefault", "insert", "remove", "popitem", "sort", "reverse"}
     for mod in mods:
+        helper_only = False
         if not (mod.stem == "scsi_command" or mod.stem.startswith("scsi_cdb_")):
-            continue
+            if "/utils/" not in mod.rel.replace(os.sep, "/"):
+                continue
+            helper_only = True     # the codec helpers: their out-parameters are their contract; only state that outlives a call is flagged
 
-        def scan(fn, owner):
+        def scan(fn, owner, helper_only=helper_only):
             pnames = {a.arg for a in fn.args.args + fn.args.kwonlyargs if a.arg not in ("self", "cls")}
             if fn.args.vararg:
                 pnames.add(fn.args.vararg.arg)
@@ -1161,6 +1165,8 @@ def gen_footprint(mods):
             for node in ast.walk(fn):
                 if isinstance(node, ast.Global):
                     shared.append("%s: global %s" % (where, ", ".join(node.names)))
+                if helper_only:
+                    continue
                 tgts = []
                 if isinstance(node, ast.Assign):
                     tgts = node.targets
@@ -1192,6 +1198,10 @@ def gen_footprint(mods):
                     if isinstance(node.func, ast.Attribute) and node.func.attr in MUT and isinstance(node.func.value, ast.Name):
                         if node.func.value.id in pnames:
                             params.append("%s: %s" % (where, src_of(node, mod.text).split("\n")[0][:90]))
+            for d in fn.decorator_list:
+                dn = dotted(d.func if isinstance(d, ast.Call) else d) or ""
+                if dn.split(".")[-1] in ("lru_cache", "cache", "cached_property", "memoize"):
+                    shared.append("%s: @%s   (results are shared between all callers)" % (where, dn))
             # a mutable default argument that is changed in place is state shared by every later call
             pos_args = fn.args.args
             mdef = set()
@@ -1267,7 +1277,7 @@ def gen_footprint(mods):
 def gen_misc(mods):
     from translate import HEADER, coq_str, const_int, src_of
     lines = [HEADER.format(src="scsi_command.py (init_cdb), scsi.py (attach table), iscsi_device.py (status dispatch)",
-                           extra=" Model.Command Model.Enum Model.Exec Model.Device Gen.Tables")]
+                           extra=" Model.Command Model.Enum Model.Exec Model.Device Model.Sx Gen.Tables")]
     info = {}
     unknown = []
     # ---- SCSICommand.init_cdb: if lo <= opcode.value <= hi: cdb = bytearray(n) | raise ... else: raise
@@ -1370,6 +1380,44 @@ def gen_misc(mods):
     sg = [n for n in ast.walk(dmod.tree) if isinstance(n, ast.Call) and dotted(n.func) == "sgio.execute"]
     lines.append("Definition sgio_execute_args : list (list string) := [%s].\n" % "; ".join(
         "[%s]" % "; ".join(coq_str(src_of(a, dmod.text)) for a in c.args) for c in sg))
+    # every store either execute() performs on the command object it was handed: (function, attribute, "rebind" | "content" | "other")
+    stores = []
+    for m2, cname in ((dmod, "SCSIDevice"), (imod, "ISCSIDevice")):
+        for node in m2.tree.body:
+            if isinstance(node, ast.ClassDef) and node.name == cname:
+                fn = next((x for x in node.body if isinstance(x, ast.FunctionDef) and x.name == "execute"), None)
+                if fn is None or len(fn.args.args) < 2:
+                    stores.append((cname, "?", "other"))
+                    continue
+                cn = fn.args.args[1].arg
+                for n in ast.walk(fn):
+                    tg = []
+                    if isinstance(n, ast.Assign):
+                        tg = list(n.targets)
+                    elif isinstance(n, (ast.AugAssign, ast.AnnAssign)):
+                        tg = [n.target]
+                    elif isinstance(n, ast.Delete):
+                        tg = list(n.targets)
+                    elif isinstance(n, ast.Call) and (dotted(n.func) or "") in ("setattr", "delattr") and n.args \
+                            and isinstance(n.args[0], ast.Name) and n.args[0].id == cn:
+                        stores.append((cname, "?", "other"))
+                    elif isinstance(n, ast.Call) and isinstance(n.func, ast.Attribute) and isinstance(n.func.value, ast.Attribute) \
+                            and isinstance(n.func.value.value, ast.Name) and n.func.value.value.id == cn \
+                            and n.func.attr in ("extend", "append", "clear", "pop", "insert", "remove", "reverse", "__init__"):
+                        stores.append((cname, n.func.value.attr, "resize"))
+                    for t in tg:
+                        for t1 in (t.elts if isinstance(t, (ast.Tuple, ast.List)) else [t]):
+                            if isinstance(t1, ast.Attribute) and isinstance(t1.value, ast.Name) and t1.value.id == cn:
+                                stores.append((cname, t1.attr, "rebind"))
+                            elif isinstance(t1, ast.Subscript) and isinstance(t1.value, ast.Attribute) \
+                                    and isinstance(t1.value.value, ast.Name) and t1.value.value.id == cn:
+                                stores.append((cname, t1.value.attr, "resize" if isinstance(t1.slice, ast.Slice) else "content"))
+                            elif isinstance(t1, ast.Name) and t1.id == cn:
+                                stores.append((cname, "?", "other"))
+    lines.append("(* every store the two execute() functions perform on the command object they were handed *)")
+    lines.append("Definition exec_cmd_stores : list (string * string * string) := [%s].\n" % "; ".join(
+        "(%s, %s, %s)" % (coq_str(a), coq_str(b), coq_str(c)) for a, b, c in stores))
+    info["exec_cmd_stores"] = stores
     info["iscsi_prog"] = [[n, acts] for n, acts in prog]
     info["sgio_handler"] = handler
     # ---- SCSIDevice replug handling
@@ -1564,6 +1612,40 @@ def init_device_tables(mods):
         else:
             lines.append("Definition %s : option (nat * string) := Some (%d%%nat, %s).\n" % (dname, g[0], coq_str(g[1])))
         info[dname] = g
+        # how the requested name reaches the binding: every store of the class to an attribute of self, and the expression
+        # the binding is opened on (builtins open(<arg0>) in SCSIDevice.open, iscsi.URL(ctx, <arg1>) in ISCSIDevice.open)
+        def sx(node, params):
+            if isinstance(node, ast.Name) and node.id in params:
+                return "SxParam %s" % coq_str(node.id)
+            d = dotted(node) or ""
+            if d.startswith("self.") and d.count(".") == 1:
+                return "SxAttr %s" % coq_str(d.split(".")[1])
+            return "SxOther %s" % coq_str(src_of(node, mod.text)[:80])
+        stores, target = [], "SxOther \"not found\""
+        for f in (cls.body if cls else []):
+            if not isinstance(f, ast.FunctionDef):
+                continue
+            params = [a.arg for a in f.args.args[1:]]
+            for n in ast.walk(f):
+                tg = []
+                if isinstance(n, ast.Assign):
+                    tg = [(t, n.value) for t in n.targets]
+                elif isinstance(n, (ast.AugAssign, ast.AnnAssign)) and n.value is not None:
+                    tg = [(n.target, n)]
+                for t, v in tg:
+                    d = dotted(t) or ""
+                    if d.startswith("self.") and d.count(".") == 1:
+                        stores.append("(%s, %s, %s)" % (coq_str(f.name), coq_str(d.split(".")[1]), sx(v, params)))
+                if isinstance(n, ast.Call) and (dotted(n.func) or "") in ("setattr", "self.__dict__.update", "object.__setattr__"):
+                    stores.append("(%s, \"?\", SxOther %s)" % (coq_str(f.name), coq_str(src_of(n, mod.text)[:60])))
+                if f.name == "open" and isinstance(n, ast.Call):
+                    fnn = dotted(n.func) or ""
+                    if cname == "SCSIDevice" and fnn == "open" and n.args:
+                        target = sx(n.args[0], params)
+                    if cname == "ISCSIDevice" and fnn == "iscsi.URL" and len(n.args) >= 2:
+                        target = sx(n.args[1], params)
+        lines.append("Definition %s_name_flow : list (string * string * sx) * sx := ([%s], %s).\n" % (
+            stem, "; ".join(stores), target))
     info["rows"] = rows
     return lines, unknown, info
 
